@@ -37,7 +37,8 @@ def c_mapper_shape(ctx, facts, fname):
         rv = p.outcome[1]
         if rv == namep:
             # either the plain-name mapper or the fallback of the class one
-            fallback = any(t[0] == "atom" and "PyObject_GetAttr(" in t[1]
+            fallback = any(t[0] == "atom" and ("PyObject_GetAttr(" in t[1]
+                                               or "class_prefix" in t[1])
                            for t in p.trace)
             if not fallback:
                 shapes.add(("N",))
@@ -49,6 +50,12 @@ def c_mapper_shape(ctx, facts, fname):
                 return "N"
             if t.startswith("PyObject_GetAttr(") and "class_prefix" in t:
                 return "CLS"
+            if "class_prefix" in t and t.endswith(")") and "," in t \
+                    and not t.startswith("PyUnicode_Concat("):
+                # the class prefix obtained some other way than an attribute
+                # lookup (for example straight from the type's own
+                # dictionary, which skips the MRO)
+                return "CLS!"
             return None
         if rv == "0":
             continue
@@ -103,6 +110,16 @@ def prefix_agree(ctx, res):
                f"(delegate_name, delegate_prefix, prefix_type, modify)")
     table = facts.table("delegate_attr_name_handlers")
     mappers = [c_mapper_shape(ctx, facts, f) for f in table if f]
+    for f, m in zip([f for f in table if f], mappers):
+        res.oblige("CLS!" not in m, f"{f}:class-prefix-lookup", CREL,
+                   f"{f} does not obtain the class `__prefix__` with an "
+                   f"attribute lookup on the object's type "
+                   f"(PyObject_GetAttr): a `__prefix__` inherited from a base "
+                   f"class is not found, while the listener side "
+                   f"(_trait_delegate_name reads `self.__prefix__`) follows "
+                   f"inheritance - reads/writes and notifications then use "
+                   f"different attributes of the delegate")
+    mappers = [tuple("CLS" if a == "CLS!" else a for a in m) for m in mappers]
     res.instance("delegate_attr_name_handlers", CREL,
                  shapes=[list(m) for m in mappers])
     gdp = repo.func(HT, "get_delegate_pattern")
